@@ -14,8 +14,8 @@ ID = "C05"
 LEVEL = "exploration"
 DESIGN_REF = "DESIGN.md §3.2, §4 C05"
 RULE = (
-    "cases = C04's program family with removal-heavy call lists (unschedule / remove_handler_for_watch / unschedule_all "
-    "from API threads and re-entrantly from handlers, stop() at the end) x schedules (DFS with <= k preemptions over 8 "
+    "cases = C04's program family with removal-heavy call lists (unschedule / remove_handler_for_watch / unschedule_all / "
+    "stop from API threads and re-entrantly from handlers, stop() again at the end) x schedules (DFS with <= k preemptions over 10 "
     "fixed programs, random schedules over Hypothesis programs), one program in three with an emitter that spends longer "
     "than its timeout inside one queue_events() pass; a marker event queued through every live emitter at "
     "quiescence is judged like any other event.  non-trivial = some removal returned while >= 1 event of "
@@ -89,6 +89,9 @@ def PS(prog, slow):
 
 
 FIXED += [
+    # stop() from two threads at once, and from a callback while another thread stops
+    P(["/p0"], {"/p0": [0, 1, 2, 3]}, [{}, {}], [["schedule", 0, 0], ["schedule", 1, 0]], [[["stop"]], [["stop"]]]),
+    P(["/p0"], {"/p0": [0, 1, 2]}, [{"reentrant": {"at": 1, "call": ["stop"]}}, {}], [["schedule", 0, 0], ["schedule", 1, 0]], [[["stop"]]]),
     # the removal arrives while the emitter is inside one long queue_events() pass (longer than its timeout)
     PS(P(["/p0"], {"/p0": [0, 1]}, [{}], [["schedule", 0, 0]], [[["unschedule_all"]]]), {"/p0": {"1": 2.5}}),
     PS(P(["/p0", "/p1"], {"/p0": [0, 1], "/p1": [0]}, [{}], [["schedule", 0, 0], ["schedule", 0, 1]], [[["unschedule", 0]]]), {"/p0": {"0": 2.5}}),
